@@ -102,6 +102,8 @@ type Scenario struct {
 	// index (last script repeats), "stage" = by the stage number the driver last set with flag{stage,n}; launch
 	// errors are then per stage as well. Stages do not drift when a failed initialisation launches only some roles.
 	SelectBy string `json:"selectBy,omitempty"`
+	// NoWaitAsync: do not wait for background driver steps (invocations that never complete by design) at the end.
+	NoWaitAsync bool `json:"noWaitAsync,omitempty"`
 }
 
 // Event of the trace. Seq comes from one atomic counter in the host: return(a).Seq < issue(b).Seq
